@@ -56,6 +56,8 @@ def occurrences(p, by_net=False):
                 occ.setdefault('nn_params', set()).add(bool(nn.sg))
                 leaf(eq)
         elif tag == 'P':
+            if 'observed' in a[2]:
+                return                 # an observed VALUE of the parameter (data of the batch), not the parameter being trained
             if by_net:
                 if cur[0] is not None:
                     occ.setdefault((cur[0], a[1]), set()).add(bool(a[4]))
@@ -127,7 +129,14 @@ def run(chk):
         plan = [(kind, a, EQ_KEYS, ()) for kind in (('PINN', 'SPINN') if (thorough and eq_type != 'ODE') else ('PINN',)) for a in uniq]
         plan += [('PINN', a, EQ_KEYS[::-1], ()) for a in toggles]
         plan += [('PINN', a, EQ_KEYS, pk) for a in toggles for pk in (('nu',), ('nu', 'th'))]
-        for kind, a, order, pk in plan:
+        plan = [x + ({},) for x in plan]
+        # observations that come with observed values of one equation parameter: the other parameters are still routed as specified
+        plan += [('PINN', a, EQ_KEYS, (), {'observed': ('nu',)}) for a in toggles]
+        if eq_type != 'ODE':
+            # boundary conditions given facet by facet
+            facets = ('xmin', 'xmax', 'ymin', 'ymax')
+            plan += [('PINN', a, EQ_KEYS, (), {'per_facet': {f: 'dirichlet' for f in facets}}) for a in toggles]
+        for kind, a, order, pk, var in plan:
             # the normalisation term cannot be combined with a parameter batch (its samples and the parameter rows are
             # vmapped together; see DESIGN section 6), so it is left out of those configurations
             conf = tuple(CONF[t] for t in terms if not (kind == 'SPINN' and t == 'observations') and not (pk and t == 'norm_loss'))
@@ -138,13 +147,18 @@ def run(chk):
                     cfg["mask_key_order"] = list(order)
                 if pk:
                     cfg["param_batch"] = list(pk)
+                if var.get('observed'):
+                    cfg["observed_parameters"] = list(var['observed'])
+                if var.get('per_facet'):
+                    cfg["boundary"] = "per facet"
                 res = {}
 
-                def build(a=a, eq_type=eq_type, kind=kind, conf=conf, terms=terms, dkcls=dkcls, order=order, pk=pk):
+                def build(a=a, eq_type=eq_type, kind=kind, conf=conf, terms=terms, dkcls=dkcls, order=order, pk=pk, var=var):
                     masks = {t: mask_tree({g: a[(t, g)] for g in GROUPS}, order) for t in terms}
                     dk = dkcls(**masks)
-                    S = SingleLoss(E, eq_type, kind, d=2, m_u=1, m_res=1, terms=conf, eq_keys=EQ_KEYS, derivative_keys=dk)
-                    total, out = S.evaluate(param_keys=pk)
+                    S = SingleLoss(E, eq_type, kind, d=2, m_u=1, m_res=1, terms=conf, eq_keys=EQ_KEYS, derivative_keys=dk,
+                                   per_facet=var.get('per_facet'))
+                    total, out = S.evaluate(param_keys=pk, observed_params=var.get('observed'))
                     return {t: scalar_of(out[t], t) for t in terms if CONF[t] in conf}
 
                 def go_route(a=a, build=build, res=res):
@@ -165,11 +179,11 @@ def run(chk):
                     return f"{n} (term, group) occurrences routed as specified"
                 chk.run("C06.R1", SITE[eq_type] + "->_set_derivatives", cfg, go_route, construct="routing")
 
-                def go_value(res=res, eq_type=eq_type, kind=kind, pk=pk):
+                def go_value(res=res, eq_type=eq_type, kind=kind, pk=pk, var=var):
                     if 'f' not in res:
                         raise Inconclusive("formulas unavailable")
                     cur = {t: canon(p) for t, p in res['f'].items()}
-                    key = (eq_type, kind, pk)
+                    key = (eq_type, kind, pk, repr(sorted(var.items())))
                     ref = go_value.base.setdefault(key, cur)
                     for t in cur:
                         if cur[t] != ref[t]:
